@@ -42,6 +42,8 @@ impl<'i, C: Context<'i, str, St, Tk>> Lexer<'i, C, St, Tk> for Hostile {
             let value = &rest[..len];
             Token { kind: Tk(kind as u16), value, span: value.span_from(pos) }
         };
+        // like StringLexer: the token value is whatever slice the recogniser returned
+        let mkv = |kind: usize, value: &'i str| Token { kind: Tk(kind as u16), value, span: value.span_from(pos) };
         let h = (pos.pos as u64).wrapping_mul(0x9E3779B97F4A7C15) ^ self.seed;
         match self.mode {
             1 => {
@@ -51,7 +53,7 @@ impl<'i, C: Context<'i, str, St, Tk>> Lexer<'i, C, St, Tk> for Hostile {
                 for k in 1..self.nterm {
                     if let Some(m) = self.recs[k].recognize(rest) {
                         if !m.is_empty() {
-                            return Box::new(std::iter::once(mk(k, m.len())));
+                            return Box::new(std::iter::once(mkv(k, m)));
                         }
                     }
                 }
@@ -64,7 +66,7 @@ impl<'i, C: Context<'i, str, St, Tk>> Lexer<'i, C, St, Tk> for Hostile {
                 for (k, _) in &expected {
                     if let Some(m) = self.recs[k.0 as usize].recognize(rest) {
                         if !m.is_empty() {
-                            return Box::new(std::iter::once(mk(k.0 as usize, m.len())));
+                            return Box::new(std::iter::once(mkv(k.0 as usize, m)));
                         }
                     }
                 }
@@ -104,7 +106,14 @@ fn outcome_str<T>(r: &Result<rustemo::Result<T>, Option<String>>) -> &'static st
 }
 
 pub fn judge(t: &Target, input: &str, lexer_mode: u8, rep: &mut Rep, curfile: &Option<String>) {
-    let case = || json!({"grammar": t.text, "grammar_name": t.name, "settings": t.spec.to_json(), "input": input, "lexer": lexer_mode});
+    let trace = std::env::var_os("RUSTEMO_TRACE").is_some();
+    let case = || {
+        if trace {
+            json!({"grammar": t.text, "grammar_name": t.name, "settings": t.spec.to_json(), "input": input, "lexer": lexer_mode, "env": {"RUSTEMO_TRACE": "1"}})
+        } else {
+            json!({"grammar": t.text, "grammar_name": t.name, "settings": t.spec.to_json(), "input": input, "lexer": lexer_mode})
+        }
+    };
     if let Some(cf) = curfile {
         // survives an abort (stack overflow, OOM) of this process
         if input.len() < 4000 {
@@ -248,7 +257,7 @@ fn lits_of_dump_text(text: &str) -> Vec<String> {
             i += 1;
         }
     }
-    out.extend(["1", "42", "3.5", "x", "foo", "\"s\"", "true"].iter().map(|s| s.to_string()));
+    out.extend(["1", "42", "3.5", "x", "foo", "\"s\"", "true", "false", "+", "-", "*", "/", "é-", "é+"].iter().map(|s| s.to_string()));
     out
 }
 
@@ -287,7 +296,10 @@ pub fn main(a: &Args) {
         let spec = SetSpec::from_json(&case["settings"]);
         if let Some(t) = mk_target(case["grammar_name"].as_str().unwrap_or("replay"), case["grammar"].as_str().unwrap(), &spec, &wd, &mut rep) {
             if let Some(input) = case["input"].as_str() {
-                judge(&t, input, case["lexer"].as_u64().unwrap_or(0) as u8, &mut rep, &None);
+                judge(&t, input, case["lexer"].as_u64().unwrap_or(0) as u8, &mut rep, &curfile);
+                if let Some(cf) = &curfile {
+                    let _ = std::fs::remove_file(cf);
+                }
             }
         }
         rep.finish();
@@ -373,9 +385,21 @@ pub fn main(a: &Args) {
             ("random_bnf".to_string(), g)
         };
         let lits: Vec<String> = g.terms.iter().map(|t| if let Rec::Lit(l) = &t.rec { l.clone() } else { String::new() }).collect();
+        let cyclic = g.cyclic();
         for glr in [false, true] {
-            // fence of the listed finding lr-epsilon-loop: LR grammars carry no meta-data, conflicts are resolved by prefer-shift only
-            let family = if rng.chance(0.3) { rng.range(1, 3) as u8 } else { 0 };
+            // fence of the listed findings lr-epsilon-loop / lr-reduction-cycle-cyclic-grammar: LR grammars carry no
+            // meta-data, conflicts are resolved by prefer-shift only, and cyclic grammars are not compiled in LR mode
+            if !glr && cyclic {
+                rep.count("lr_skipped_cyclic_grammar_fence", 1);
+                continue;
+            }
+            // fence of the listed finding glr-trace-cyclic-forest: with RUSTEMO_TRACE the parser logs
+            // forest.solutions(), which recurses forever on the cyclic forest of a cyclic grammar
+            if glr && cyclic && std::env::var_os("RUSTEMO_TRACE").is_some() {
+                rep.count("glr_trace_skipped_cyclic_grammar_fence", 1);
+                continue;
+            }
+            let family = if rng.chance(0.4) { rng.range(1, 6) as u8 } else { 0 };
             let text = if family > 0 { grammar_text(&g, family) } else { g.text() };
             let spec = SetSpec { glr, ps: if glr { None } else { Some(true) }, partial: rng.chance(0.2), ..Default::default() };
             let Some(t) = mk_target(&name, &text, &spec, &wd, &mut rep) else { continue };
@@ -386,6 +410,15 @@ pub fn main(a: &Args) {
                     s.push_str(lits.first().map(|x| x.as_str()).unwrap_or("a"));
                     s.push_str(&gen_layout(&mut rng, family, false, true));
                     ins.push(s.clone());
+                    // layout consumed, then nothing can be recognised
+                    let mut t = s.clone();
+                    t.push_str(" \u{1}? ");
+                    ins.push(t);
+                    let mut t = s.clone();
+                    t.push_str(" ");
+                    t.push_str(lits.last().map(|x| x.as_str()).unwrap_or("a"));
+                    t.push_str(" \n§");
+                    ins.push(t);
                     // unterminated comment
                     s.push_str("/* x");
                     ins.push(s);
